@@ -74,6 +74,7 @@ type genState struct {
 	recs     []*pendRec
 	reqCtr   int
 	commits  map[int]*Msg // validator -> vote message prepared at prevote time
+	former   map[int]int  // validator -> the feeder whose delegation it took back
 	feeders  map[int]int
 	nftNext  uint64
 	nftOwner map[uint64]int
@@ -104,7 +105,7 @@ var ownerPool = []string{
 
 func GenHistory(seed uint64, idx int, p Profile) History {
 	r := NewRng(seed*1000003 + uint64(idx))
-	g := &genState{r: r, p: p, commits: map[int]*Msg{}, feeders: map[int]int{}, nftOwner: map[uint64]int{}, jailed: map[int]bool{}}
+	g := &genState{r: r, p: p, commits: map[int]*Msg{}, former: map[int]int{}, feeders: map[int]int{}, nftOwner: map[uint64]int{}, jailed: map[int]bool{}}
 	nv := 3 + r.Intn(3)
 	g.nVals = nv
 	gen := HGenesis{NAccts: nv + 5, Funds: 1000000, Nft: p.Internal, OracleFee: p.OracleFee, BigFunds: p.Adversarial && r.Chance(50)}
@@ -188,8 +189,13 @@ func (g *genState) importedGenesis() {
 			if r.Chance(10) {
 				amt = "340282366920938463463374607431768211455" // 2^128-1: amount * weight still fits 256 bits
 			}
+			created := uint64(r.Intn(3))
+			if r.Chance(15) {
+				// creation heights above the height the import starts from (an export of a longer chain, an edited genesis)
+				created = []uint64{4, 9, 14, 40, 1 << 62, 1 << 63, 1<<64 - 1, 1<<64 - 3}[r.Intn(8)]
+			}
 			u := GenUtxr{Tid: uint64(t), Id: id, Req: req, Recips: recips, Denom: denom, Amount: amt,
-				Chain: g.h.Genesis.Chains[0], Contract: extContracts[r.Intn(len(extContracts))], Tok: []string{"0x1", "0x2", "0x3"}[r.Intn(3)], Created: uint64(r.Intn(3))}
+				Chain: g.h.Genesis.Chains[0], Contract: extContracts[r.Intn(len(extContracts))], Tok: []string{"0x1", "0x2", "0x3"}[r.Intn(3)], Created: created}
 			g.h.Genesis.Utxrs = append(g.h.Genesis.Utxrs, u)
 			g.recs = append(g.recs, &pendRec{tid: uint64(t), req: req, chain: u.Chain, contract: u.Contract, tok: u.Tok, created: int64(u.Created), external: true})
 			id += uint64(1 + r.Intn(3))
@@ -343,15 +349,21 @@ func (g *genState) settlementMsg() *Msg {
 		}
 		return m
 	case k < 85:
-		return &Msg{Kind: "update_period", Sender: g.senderFor(t), Tid: t.id, Period: g.period()}
+		return &Msg{Kind: "update_period", Sender: g.senderFor(t), Tid: t.id, Period: g.period(), SenderUpper: r.Chance(6)}
 	case k < 93:
-		return &Msg{Kind: "add_admin", Sender: g.senderFor(t), Tid: t.id, Admin: g.userFor(t.id)}
+		m := &Msg{Kind: "add_admin", Sender: g.senderFor(t), Tid: t.id, Admin: g.userFor(t.id)}
+		if len(t.admins) > 0 && r.Chance(25) {
+			m.Admin = t.admins[r.Intn(len(t.admins))] // somebody who is an admin already ...
+			m.AdminUpper = r.Chance(60)               // ... possibly under another spelling of the same address
+		}
+		m.SenderUpper = r.Chance(6)
+		return m
 	default:
 		adm := g.userFor(t.id)
 		if len(t.admins) > 0 && r.Chance(70) {
 			adm = t.admins[r.Intn(len(t.admins))]
 		}
-		return &Msg{Kind: "remove_admin", Sender: g.senderFor(t), Tid: t.id, Admin: adm}
+		return &Msg{Kind: "remove_admin", Sender: g.senderFor(t), Tid: t.id, Admin: adm, AdminUpper: r.Chance(10), SenderUpper: r.Chance(6)}
 	}
 }
 
@@ -425,6 +437,16 @@ func (g *genState) oracleMsgs() []Event {
 			g.feeders[v] = f
 			continue
 		}
+		if f, ok := g.feeders[v]; ok && r.Chance(6) {
+			// take the delegation back: the operator names its own account; the former feeder keeps trying
+			out = append(out, Event{Kind: "otx", Msgs: []Msg{{Kind: "consent", Val: v, Feeder: v}}})
+			delete(g.feeders, v)
+			g.former[v] = f
+			continue
+		}
+		if f, ok := g.former[v]; ok && r.Chance(35) {
+			feeder = f
+		}
 		if g.height <= pe || r.Chance(5) {
 			if _, done := g.commits[v]; done && !r.Chance(10) {
 				continue
@@ -448,7 +470,21 @@ func (g *genState) oracleMsgs() []Event {
 				entries = append(entries, []string{"1/0x1/0x2", "1/0x1:0x2", "nonsense", "2/0xc1/0x1:0xa1", "1/0xc1/0x1:0xa1:0xa2", ":", "//:"}[r.Intn(7)])
 			}
 			var vd []VD
-			if len(entries) > 0 || r.Chance(50) {
+			if len(entries) > 0 && r.Chance(15) {
+				// the same topic in several items of one vote, entries repeated across the items
+				cut := r.Intn(len(entries) + 1)
+				vd = append(vd, VD{Topic: 1, Entries: entries[:cut]})
+				rest := append([]string{}, entries[cut:]...)
+				for _, e := range entries[:cut] {
+					if r.Chance(50) {
+						rest = append(rest, e)
+					}
+				}
+				vd = append(vd, VD{Topic: 1, Entries: rest})
+				if r.Chance(30) {
+					vd = append(vd, VD{Topic: 1, Entries: entries})
+				}
+			} else if len(entries) > 0 || r.Chance(50) {
 				vd = append(vd, VD{Topic: 1, Entries: entries})
 			}
 			if g.p.Adversarial && r.Chance(10) {
